@@ -73,7 +73,12 @@ func (e *vhSM) check(groups int) {
 			}
 		}
 		if e.alive {
-			verifrt.Assert(e.rlc.H == e.cur.h && e.rlc.R == e.cur.r, "R6:lifecycle-round-is-the-last-entered")
+			if rd := e.round(); rd != nil && rd.catchupCH != nil {
+				// replaying a committed header: the round belongs to the commit, not to the entrance
+				verifrt.Assert(e.rlc.H == e.cur.h, "R6:replaying-lifecycle-names-the-height-entered")
+			} else {
+				verifrt.Assert(e.rlc.H == e.cur.h && e.rlc.R == e.cur.r, "R6:lifecycle-round-is-the-last-entered")
+			}
 		}
 		for _, f := range e.finReqs[c.fins:] {
 			rd := e.rounds[f.at]
@@ -158,7 +163,16 @@ func (e *vhSM) check(groups int) {
 			if e.evKind == evTimer && e.evTimerKind == vhTPrevoteDelay && e.evTimerHR == e.cur {
 				verifrt.Assert(asked, "R5b:precommit-decision-asked-when-prevote-delay-elapses")
 			}
-			verifrt.Assert(verifrt.Implies(rd.view.pcThird(), asked), "R5c:precommit-decision-asked-as-soon-as-third-of-precommits-seen")
+			// the label names the step the state machine is left in, so that a finding in one
+			// handler does not cover the others
+			switch e.rlc.S {
+			case tsi.StepAwaitingPrevotes, tsi.StepPrevoteDelay:
+				verifrt.Assert(verifrt.Implies(rd.view.pcThird(), asked), "R5c:precommit-decision-asked-as-soon-as-third-of-precommits-seen/left-in-a-prevote-step")
+			case tsi.StepAwaitingProposal:
+				verifrt.Assert(verifrt.Implies(rd.view.pcThird(), asked), "R5c:precommit-decision-asked-as-soon-as-third-of-precommits-seen/left-awaiting-proposal")
+			default:
+				verifrt.Assert(verifrt.Implies(rd.view.pcThird(), asked), "R5c:precommit-decision-asked-as-soon-as-third-of-precommits-seen/left-in-a-precommit-step")
+			}
 		}
 	}
 
